@@ -301,10 +301,20 @@ def variants(rng, d):
             es = list(n["edges"])
             put("edge", dict(n, edges=es[:-1] + [Q(frac(es[-1]) + 1)]))
             put("nedges", dict(n, edges=es + [Q(frac(es[-1]) + 2)]))
+            if len(es) >= 2 and es != es[::-1]:
+                put("edgeorder", dict(n, edges=es[::-1]))
         elif k == "Stack":
             ts = list(n["thresholds"])
             put("threshold", dict(n, thresholds=ts[:-1] + [Q(frac(ts[-1]) + 1)]))
             put("nthresholds", dict(n, thresholds=ts + [Q(frac(ts[-1]) + 2)]))
+            if len(ts) >= 2 and ts != ts[::-1]:
+                put("thresholdorder", dict(n, thresholds=ts[::-1]))       # the same SET of cuts in another order
+            if len(ts) >= 2 and ts[0] != ts[-1]:
+                # the same set of cuts, the same number of bins, another multiplicity: [1,1,3] against [1,3,3]
+                for pth, nn in [(path, n)]:
+                    a = dict(nn, thresholds=[ts[0]] + ts)
+                    b = dict(nn, thresholds=ts + [ts[-1]])
+                    out.append(("thresholdmult@%s" % "/".join(map(str, pth)), D.replace_at(d, pth, b), D.replace_at(d, pth, a)))
         elif k == "Bag":
             parent_ = D.node_at(d, path[:-1]) if path else None
             if parent_ is None or parent_["k"] not in ("Label", "Index"):   # those refuse mixed Bag ranges at construction
@@ -394,7 +404,7 @@ def ops_failing(rng, d):
         x = al.datum(rng)
         if fids and rng.random() < 0.45:
             x["fa"] = rng.choice(fids)
-            x["fm"] = rng.choice(["raise", "wrong", "npstr"])
+            x["fm"] = rng.choice(["raise", "wrong", "npstr", "complex"])
         # also weights that are not exactly representable: a rollback by subtraction would not restore them
         ops.append({"op": "Fill", "s": 1, "x": x, "w": rng.choice(DR.POSWEIGHTS + [Q(0), Q(F(1, 10)), Q(F(3, 10)), Q(F(1, 3))])})
         if x["fa"] and rng.random() < 0.6:
